@@ -371,6 +371,7 @@ type fanFwdState struct {
 	closedAtLock uint16
 	dereg        bool
 	done         bool
+	closedAtDone uint16 // channels closed when wg.Done ran
 }
 
 type fanFwdFacts struct {
@@ -388,6 +389,7 @@ type fanFwdFacts struct {
 	visited         []*ssa.Function
 	exitWithoutLock string
 	unknown         string
+	doneBeforeClose string    // an exit on which wg.Done ran before the subscriber channel was closed
 	waits           []fanWait // the blocking operations of the forwarder
 }
 
@@ -537,6 +539,9 @@ func fanForwarders(c *Ctx, ro *fanRoles, sf *fanSubFacts) *fanFwdFacts {
 				}
 			}
 			if callIs(v, "sync", "WaitGroup", "Done") && evWgArg(cx, v) == ro.wgID {
+				if !s.done {
+					s.closedAtDone = s.closedMask
+				}
 				s.done = true
 			}
 		}
@@ -576,6 +581,8 @@ func fanForwarders(c *Ctx, ro *fanRoles, sf *fanSubFacts) *fanFwdFacts {
 		}
 		if e.s.closedMask&ff.outMask == 0 {
 			ff.allCloseOut = false
+		} else if e.s.done && e.s.closedAtDone&ff.outMask == 0 {
+			ff.doneBeforeClose = p.Pos(instrPos(e.ret))
 		}
 	}
 	if len(exits) == 0 {
@@ -590,9 +597,9 @@ func checkFanout(c *Ctx, cfg fanoutCfg) {
 	r, p := c.R, c.P
 	pre := cfg.Prop
 	if cfg.Prop == "C10" {
-		r.Explanation = "Decides structural necessary conditions of C10 on events/batcher, over the events along the inlined paths of Subscribe, the queue callback, Close and the forwarder goroutines (constructs resolved by role): (M1) the subscriber list and the id counter only under the Batcher mutex; (M2) every send into a subscriber buffer made under the lock sits in a select with a channel the subscriber's forwarder closes BEFORE it takes the lock on its way out (otherwise a subscriber leaving with a full buffer wedges the delivery, every later one and Close); (M3) the close channel — the way out of the fan-out select — is closed by Close without the lock and without first waiting for the queue processor that may be stuck in that select; (M4) subscribers are registered only after the closed flag was read false under the lock, forwarder goroutines are added to the wait group under the lock before they start and call Done on every exit, every wait in them has a shutdown case (subscriber context and close channel), each closes its subscriber channel and takes the lock to deregister on every exit, Close marks closed, passes the lock barrier, then waits on every path; (M5) Batch enqueues the key through Processor.Enqueue with due time clock.Now()+interval, the callback offers the item's value to every entry of the subscriber list in one critical section of the exclusively held lock, by a blocking send (no default, no timeout: the only alternatives are the subscriber's release channel and the close channel), and nothing is sent unless the closed flag was read false; the forwarder passes on exactly what it received; (M6) subscriber ids come from a counter field that is only ever incremented by one under the lock; (Q2/Q3/Q5/Q6/Q7/Q8) the necessary conditions of the queue processor the delivery rests on (atomic exit and token once, pop only after the identity re-check, not early, Enqueue's insert/token attempt/reset, heap order, signal channels), evaluated as in C06 under C10 rule ids; closeCh is closed only by the call of Close that won the closed flag. NOT decided: the per-key debounce law, exactly-once and delivery order over all timelines."
+		r.Explanation = "Decides structural necessary conditions of C10 on events/batcher, over the events along the inlined paths of Subscribe, the queue callback, Close and the forwarder goroutines (constructs resolved by role): (M1) the subscriber list and the id counter only under the Batcher mutex; (M2) every send into a subscriber buffer made under the lock sits in a select with a channel the subscriber's forwarder closes BEFORE it takes the lock on its way out (otherwise a subscriber leaving with a full buffer wedges the delivery, every later one and Close); (M3) the close channel — the way out of the fan-out select — is closed by Close without the lock and without first waiting for the queue processor that may be stuck in that select; (M4) subscribers are registered only after the closed flag was read false under the lock, forwarder goroutines are added to the wait group under the lock before they start and call Done on every exit, every wait in them has a shutdown case (subscriber context and close channel), each closes its subscriber channel (before it calls Done) and takes the lock to deregister on every exit, Close marks closed, passes the lock barrier, then waits on every path; (M5) Batch enqueues the key through Processor.Enqueue with due time clock.Now()+interval on every path on which the batcher was not seen closed, the callback offers the item's value to every entry of the subscriber list in one critical section of the exclusively held lock during which the list is not modified, by a blocking send (no default, no timeout: the only alternatives are the subscriber's release channel and the close channel), and nothing is sent unless the closed flag was read false; the forwarder passes on exactly what it received; (M6) subscriber ids come from a counter field that is only ever incremented by one under the lock; (Q2/Q3/Q5/Q6/Q7/Q8) the necessary conditions of the queue processor the delivery rests on (atomic exit and token once, pop only after the identity re-check, not early, Enqueue's insert/token attempt/reset, heap order, signal channels), evaluated as in C06 under C10 rule ids; closeCh is closed only by the call of Close that won the closed flag. NOT decided: the per-key debounce law, exactly-once and delivery order over all timelines."
 	} else {
-		r.Explanation = "Decides structural necessary conditions of C11 on events/broadcaster, over the events along the inlined paths of Subscribe, Broadcast, Close and the forwarder goroutines (constructs resolved by role): (M1) the subscriber list and the id counter only under the Broadcaster mutex and the whole fan-out loop of Broadcast runs in one critical section (necessary for one common order); (M2) every send into a subscriber buffer under the lock selects on a channel the forwarder closes before taking the lock; (M3) the close channel is closed by Close without the lock a blocked Broadcast holds; (M4) subscribers registered only after the closed flag was read false under the lock, forwarders tracked (Add under the lock before go, Done on every exit), shutdown case in every wait, lock-protected deregistration on every exit, Close marks closed, passes the lock barrier and waits; (M5) Broadcast delivers its argument to every entry of the subscriber list, holding the lock exclusively (not in read mode) and by a blocking send whose only alternatives are the subscriber's release channel and the close channel, and sends nothing unless the closed flag was read false; forwarders pass on exactly what they received; closeCh is closed only by the call of Close that won the closed flag; (M6) subscriber ids come from a counter field that is only ever incremented by one under the lock. NOT decided: exactly-once and common order as runtime facts over all histories."
+		r.Explanation = "Decides structural necessary conditions of C11 on events/broadcaster, over the events along the inlined paths of Subscribe, Broadcast, Close and the forwarder goroutines (constructs resolved by role): (M1) the subscriber list and the id counter only under the Broadcaster mutex and the whole fan-out loop of Broadcast runs in one critical section (necessary for one common order); (M2) every send into a subscriber buffer under the lock selects on a channel the forwarder closes before taking the lock; (M3) the close channel is closed by Close without the lock a blocked Broadcast holds; (M4) subscribers registered only after the closed flag was read false under the lock, forwarders tracked (Add under the lock before go, Done on every exit), shutdown case in every wait, lock-protected deregistration on every exit, Close marks closed, passes the lock barrier and waits; (M5) Broadcast delivers its argument to every entry of the subscriber list, which is not modified inside the loop, holding the lock exclusively (not in read mode) and by a blocking send whose only alternatives are the subscriber's release channel and the close channel, and sends nothing unless the closed flag was read false; forwarders pass on exactly what they received; closeCh is closed only by the call of Close that won the closed flag; (M6) subscriber ids come from a counter field that is only ever incremented by one under the lock. NOT decided: exactly-once and common order as runtime facts over all histories."
 	}
 	r.Assumptions = append(r.Assumptions, "type-based lock and channel identity: all subscribers' buffers are one abstract channel", "subscriber contexts and caller-owned channels can always fire/are drained by their owners", "calls are followed through static calls, defer and go of same-package functions and through function values whose target is visible in the package (closure parameters, locals and captured cells, bound method values, literal slices of steps up to 8 entries, func-typed fields assigned once, single-implementation unexported interfaces, sync.Once.Do); other dynamic calls are not followed and turn absence claims into UNDECIDED")
 	r.Rule(pre+".M1-guard", "subscriber list / id counter only under the component lock", 3)
@@ -713,6 +720,7 @@ func checkFanout(c *Ctx, cfg fanoutCfg) {
 	}
 	r.Check(why == "", pre+".M4-forwarders", comp+" forwarder deregisters", fwdPos, "every exit of the forwarder passes through the lock-protected removal of its entry", why)
 	if cfg.Prop == "C10" {
+		check(fw.doneBeforeClose == "", "", comp+" forwarder closes subscriber channel before Done", "the subscriber channel is closed before the forwarder reports Done to the wait group", "a forwarder (exit at "+fw.doneBeforeClose+") calls wg.Done before it has closed the subscriber's channel: Close's wg.Wait can return while subscriber channels are still open (statement: after Close returns every subscriber channel has been closed)")
 		check(fw.allCloseOut, fw.unknown, comp+" forwarder closes subscriber channel", "subscriber channel closed on every exit of the forwarder", "the forwarder can exit without closing the subscriber's channel (statement: after Close every subscriber channel has been closed)")
 	}
 
@@ -958,7 +966,7 @@ func fanDelivery(c *Ctx, ro *fanRoles, releaseFields []string, takesLock bool, f
 		}
 		return out
 	}
-	var sendChains, unlockChains [][]ssa.Instruction
+	var sendChains, unlockChains, listWriteChains [][]ssa.Instruction
 	m2seen := map[ssa.Instruction]bool{}
 	m2rule := pre + ".M2-departure-release"
 	m2 := func(cx *EvCtx[fanDelState], in ssa.Instruction, s fanDelState) {
@@ -1075,8 +1083,21 @@ func fanDelivery(c *Ctx, ro *fanRoles, releaseFields []string, takesLock bool, f
 					onSend(cx, st.Chan, st.Send, in, s)
 				}
 			}
+		case *ssa.Store:
+			if fa, ok := v.Addr.(*ssa.FieldAddr); ok && fieldIDOfAddr(fa) == ro.subs {
+				listWriteChains = append(listWriteChains, chainOf(cx, in))
+			}
+		case *ssa.MapUpdate:
+			if id, _, ok := fieldOfValue(cx.Resolve(v.Map).V); ok && id == ro.subs {
+				listWriteChains = append(listWriteChains, chainOf(cx, in))
+			}
 		case *ssa.Go:
 		case ssa.CallInstruction:
+			if builtinName(v) == "delete" && len(v.Common().Args) == 2 {
+				if id, _, ok := fieldOfValue(cx.Resolve(v.Common().Args[0]).V); ok && id == ro.subs {
+					listWriteChains = append(listWriteChains, chainOf(cx, in))
+				}
+			}
 			if id, kind, ok := evLockOp(cx, e, v); ok && id == ro.lockID {
 				s.held = kind == opLock || kind == opRLock
 				s.shared = kind == opRLock
@@ -1218,6 +1239,9 @@ func fanDelivery(c *Ctx, ro *fanRoles, releaseFields []string, takesLock bool, f
 		if u := through(unlockChains); u != nil && why == "" {
 			why = "the lock is released inside the fan-out loop (at " + p.Pos(instrPos(u)) + "): concurrent fan-outs interleave and subscribers see different orders"
 		}
+		if w := through(listWriteChains); w != nil && why == "" {
+			why = "the subscriber list is modified (at " + p.Pos(instrPos(w)) + ") inside the loop that iterates over it: the entries after the modified position shift under the loop, so for this value a subscriber that stays subscribed is skipped and another is offered it twice"
+		}
 		if !hasSend && why == "" {
 			why = "no send into the subscriber buffers inside the loop over the subscriber list"
 		}
@@ -1244,8 +1268,18 @@ func c10Batch(c *Ctx, ro *fanRoles) {
 	r, p := c.R, c.P
 	fn := p.Func(ro.cfg.Rel, ro.cfg.Type+".Batch")
 	root := ro.t.Root(fn)
-	type none struct{}
+	type none struct {
+		enq      bool // the key was enqueued on this path
+		isClosed bool // the closed flag was read true on this path
+	}
 	x := NewEvExplorer[none](ro.t)
+	x.Branch = func(cx *EvCtx[none], ifi *ssa.If, taken bool, s none) (none, bool) {
+		key, neg := cx.CondKey(ifi.Cond)
+		if call, ok := key.V.(*ssa.Call); ok && evFlagOp(call, ro.closed) == "Load" && taken != neg {
+			s.isClosed = true
+		}
+		return s, true
+	}
 	nEnq := 0
 	whyTTL, whyKey := "", ""
 	retField := func(t types.Type, method string) (FieldID, *ssa.Function) {
@@ -1293,6 +1327,7 @@ func c10Batch(c *Ctx, ro *fanRoles) {
 			return s, true
 		}
 		nEnq++
+		s.enq = true
 		item := cx.Resolve(call.Call.Args[1])
 		alloc, ok := item.V.(*ssa.Alloc)
 		if !ok {
@@ -1340,12 +1375,22 @@ func c10Batch(c *Ctx, ro *fanRoles) {
 		}
 		return s, true
 	}
-	x.Explore(root, none{})
+	skip := ""
+	for _, ex := range x.Explore(root, none{}) {
+		if !ex.P.abs.enq && !ex.P.abs.isClosed {
+			skip = p.Pos(instrPos(ex.Ret))
+		}
+	}
 	if x.Incomplete != "" {
 		r.Undecide("Batch exploration: %s", x.Incomplete)
 		return
 	}
 	pos := p.Pos(fn.Pos())
+	defer func() {
+		if nEnq > 0 {
+			r.Check(skip == "", "C10.M5-delivery", "events/batcher.Batcher.Batch enqueues on every path", pos, "every path through Batch hands the key to the queue processor (unless the batcher was seen closed)", "Batch can return at "+skip+" without handing the key to the queue processor although the batcher was not seen closed: the value is dropped (a subscriber that is or becomes subscribed within the interval never gets it, and a pending older value for the key is not replaced)")
+		}
+	}()
 	if nEnq == 0 {
 		evAbsent(r, x.UnknownCalls(nil), "C10.M5-delivery", "events/batcher.Batcher.Batch enqueue", pos, "Batch no longer enqueues the key through the queue processor (all same-package callees followed)")
 		return
